@@ -283,7 +283,7 @@ impl HllSketch {
             .map_err(insufficient_data("serial_version"))?;
         let family_id = cursor.read_u8().map_err(insufficient_data("family_id"))?;
         let lg_config_k = cursor.read_u8().map_err(insufficient_data("lg_config_k"))?;
-        // lg_arr used in List/Set modes
+        // lg_arr used in List/Set modes (and for the aux table of updatable Hll4 images)
         let lg_arr = cursor.read_u8().map_err(insufficient_data("lg_arr"))?;
         let flags = cursor.read_u8().map_err(insufficient_data("flags"))?;
         // The contextual state byte:
@@ -368,7 +368,7 @@ impl HllSketch {
                     match hll_type {
                         HllType::Hll4 => {
                             let cur_min = state;
-                            Array4::deserialize(cursor, cur_min, lg_config_k, compact, ooo)
+                            Array4::deserialize(cursor, cur_min, lg_config_k, lg_arr, compact, ooo)
                                 .map(Mode::Array4)?
                         }
                         HllType::Hll6 => Array6::deserialize(cursor, lg_config_k, compact, ooo)
